@@ -225,14 +225,14 @@ def chkC02 (short long : Obs) : Bool :=
     (List.zip short.spans long.spans).all (fun (a, b) => fieldKept (· == Sp.none) a b) &&
     (List.zip short.nums long.nums).all (fun (a, b) => fieldKept (· == none) a b) &&
     short.spans.length == long.spans.length && short.nums.length == long.nums.length
-  | .crash => false
+  | .crash => true      -- not C02's business (C01)
 
 def chkC02chunk (short long : ChunkObs) : Bool :=
   match short.st with
   | .c _ => long == short
   | .e _ => long.st == short.st
   | .p => true
-  | .crash => false
+  | .crash => true
 
 /-! ### C15 — conservative extension / kind separation, on a pair of configurations -/
 
